@@ -350,6 +350,12 @@ static void mon_c10(World& w) {
     if (cycle.empty()) return;
     for (size_t k = 0; k < atts.size(); ++k) {
         const Att& a = atts[k];
+        // ... and not earlier either: an attempt on which nothing failed (no refusal, no transport error, nothing malformed, no stop) gets its 5 s
+        if (!a.ok && a.end >= 0 && a.end - a.start < 5000000000LL) { auto& st = w.net->streams[a.stream]; bool cause = st->connect_failed || st->first_error_ns >= 0;
+            if (st->conn >= 0) { const sim::Conn& cn = w.net->conns[st->conn]; if (cn.dead || cn.broker_closed) cause = true; for (auto& e : w.broker->wire) if (e.conn == st->conn && !e.c2b) cause = true; /* any broker reply: refusal, malformed, AUTH - judged elsewhere */ }
+            for (auto ts : w.stop_times) if (ts <= a.end) cause = true;
+            if (st->closed_after_stop) cause = true;
+            if (!cause && st->closed_ns >= 0) { w.vio("C10:attempt-abandoned-early:" + sn, "connection attempt on stream " + std::to_string(a.stream) + " was given up after " + std::to_string((a.end - a.start) / 1e9) + " s although nothing had failed on it (silent handshakes are abandoned after 5 s)"); break; } }
         if (!a.ok && a.end >= 0 && a.end - a.start > 5000000000LL) { w.vio("C10:handshake-not-abandoned-in-5s:" + sn, "connection attempt on stream " + std::to_string(a.stream) + " lasted " + std::to_string((a.end - a.start) / 1e9) + " s"); break; }
         bool dns_varies = sc.gate_dns;   // lookups may fail or time out: hosts can be skipped and lookups take time
         if (k == 0) { if (a.addr != cycle[0] && !dns_varies) { w.vio("C10:first-host:" + sn, "first connection attempt did not go to the first broker of the list"); break; } continue; }
